@@ -26,7 +26,7 @@ from vlib.difftools import (
 )
 from vlib.lab import Lab
 from vlib.pipes import OPS, Builder, D, op_names, pipelines, s_inners, s_src, s_val
-from vlib.values import val
+from vlib.values import Tagged, val
 
 PROPERTY_ID = "C04"
 LEVEL = "exploration"
@@ -35,7 +35,9 @@ RULE = (
     "inside operator arguments), non-multicast operators and deterministic callbacks, and subscribed 2-3 times: each "
     "later subscription either overlaps the previous one at a generated offset 0..6 (0 = same instant; class "
     "overlap-after-first-element counts overlaps that start after the previous subscriber already got an element) or "
-    "follows the previous one's termination / disposal after a generated gap 0..6; each subscription may be disposed "
+    "follows the previous one's termination / disposal after a generated gap 0..6, or is made synchronously from inside "
+    "the previous subscriber's terminal callback (mode incb; in 1 case of 4 all sources are fully synchronous so the "
+    "second subscribe is nested inside the first subscribe call: class resubscribed-nested-in-subscribe); each subscription may be disposed "
     "early at a generated tick 0..8 after it was made (classes cut-before-terminal, resubscribed-after-early-dispose), "
     "otherwise it is disposed at a horizon of 100 ticks if still running. "
     "Checks `generic` and `op.<name>`: random well-kinded pipelines over the shared operator table minus the tags "
@@ -43,13 +45,14 @@ RULE = (
     "source or merge/concat/zip/combine_latest/amb/catch/on_error_resume_next/fork_join/with_latest_from/"
     "concat_with_iterable/catch_with_iterable/defer; `generic` draws 1..4 (thorough 1..6) operators freely, the 114 "
     "`op.<name>` checks give every admitted operator form the same budget by forcing it between 0-1 (thorough 0-2) random "
-    "prefix and suffix operators. Checks `scripted` and `form.<name>`: 31 creation forms (while_do, do_while, if_then, "
+    "prefix and suffix operators. Checks `scripted` and `form.<name>`: 32 creation forms (while_do, do_while, if_then, "
     "case, defer, generate, generate_with_relative_time, for_in, from_callback, from_callable, repeat_value, catch, "
     "catch_with_iterable, on_error_resume_next incl. callable sources, concat, concat_with_iterable, zip, merge, "
     "combine_latest, fork_join, amb, with_latest_from, window_when, buffer_when, using, range, of, from_iterable, timer, "
-    "interval, retry-under-repeat budgets) whose stateful user callbacks are scripts reset by the harness at every "
+    "interval, from_future over an already resolved concurrent Future, retry-under-repeat budgets) whose stateful user callbacks are scripts reset by the harness at every "
     "subscribe, followed by optional repeat/retry and 0-2 grammar operators; subscriptions strictly sequential. "
-    "Check `abstime`: delay / delay_subscription / take_until_with_time / skip_until_with_time / timeout(+other) / timer "
+    "Check `slice-negstart`: boundary family slice(a<0, b>0) with a non-empty result over 2-6 elements, optionally under "
+    "repeat(2)/to_list. Check `abstime`: delay / delay_subscription / take_until_with_time / skip_until_with_time / timeout(+other) / timer "
     "with an ABSOLUTE datetime argument, and timestamp, on TestScheduler and HistoricalScheduler, with 0-1 grammar "
     "operators before and after. "
     "Oracle (differential): the reference for a subscription is a single subscription (same early-dispose tick) to a "
@@ -69,7 +72,9 @@ ASSUMPTIONS = [
     "a subscription that has not terminated 100 ticks after it was made is disposed (probe and inner probes); the same happens in the reference run, so the comparison stays like-for-like",
     "runs are discarded as inconclusive (and counted) when: the scheduler dequeues >=95 items without advancing its clock (spin bump, C29), the work budget is exceeded, the Python stack exceeds 400 frames or a RecursionError shows up in a trace (unbounded synchronous recursion is cut at a caller-dependent depth), or an exception escapes the scheduler in a reference run",
     "one-shot user iterables (a generator passed as the source list) are excluded: their exhaustion is the user's state, not the library's",
-    "re-subscribing from inside one of the subscriber's own callbacks is not generated",
+    "re-subscribing from inside a callback is generated only for the terminal callback and only with pure callbacks (not for scripted forms); re-subscribing from inside on_next is not generated",
+    "start / to_async / from_callable-with-caching style factories are hot (they run once and replay through an AsyncSubject) and therefore outside the statement; from_future is covered only for an already resolved future, whose outcome is replayable by construction",
+    "overlapping subscriptions for scripted (inherently stateful) callbacks are not generated: the callbacks receive no per-subscription token, so no reset can attribute a call to a subscription soundly",
 ]
 
 H = 100  # horizon (ticks after subscribe) at which a still-running subscription is disposed
@@ -134,6 +139,9 @@ def _world(build, plan, inner_pol, t0=0, clock="test"):
                 fired[0] = True
                 if k + 1 < len(plan) and plan[k + 1]["mode"] == "seq":
                     lab.at(lab.now() + plan[k + 1]["d"], subscriber(k + 1))
+                elif k + 1 < len(plan) and plan[k + 1]["mode"] == "incb":
+                    # synchronously, from inside the subscriber's terminal callback (or right after its disposal)
+                    subscriber(k + 1)()
 
             def horizon():
                 dispose_tree(p)
@@ -204,7 +212,12 @@ def _judge(case, build, plan, inner_pol, culprits, stateful, cls, absolute=False
     cls.append(f"subs:{len(plan)}")
     for k in range(1, len(plan)):
         m = plan[k]["mode"]
-        cls.append("overlap-same-instant" if (m == "ov" and plan[k]["d"] == 0) else ("overlap" if m == "ov" else ("seq-gap0" if plan[k]["d"] == 0 else "seq")))
+        if m == "incb":
+            cls.append("resubscribed-inside-terminal-callback" if pw[k - 1].terminal() is not None and pw[k - 1].terminal()[0] == ticks[k] else "resubscribed-inside-dispose-action")
+            if "all-sources-synchronous" in cls and pw[k - 1].terminal() is not None and pw[k - 1].sub_tick == ticks[k]:
+                cls.append("resubscribed-nested-in-subscribe")
+        else:
+            cls.append("overlap-same-instant" if (m == "ov" and plan[k]["d"] == 0) else ("overlap" if m == "ov" else ("seq-gap0" if plan[k]["d"] == 0 else "seq")))
         if m == "ov" and any(e[1] == "N" and e[0] <= ticks[k] for e in pw[k - 1].events) and not any(e[1] in ("E", "C") and e[0] < ticks[k] for e in pw[k - 1].events):
             cls.append("overlap-after-first-element")
     for k in range(len(plan)):
@@ -287,12 +300,12 @@ def _run_generic(case):
     def build(lab):
         return Builder(lab).build(pc), None
 
-    st_tags = _stateful_tags(pc)
+    st_tags = _stateful_tags(pc) + (["all-sources-synchronous"] if case.get("flat") else [])
     culprits = sorted(set(op_names(pc))) + ([] if pc["root"]["f"] in ("single",) else ["root:" + pc["root"]["f"]])
-    return _judge(case, build, plan, inner_pol, culprits, bool(st_tags), st_tags)
+    return _judge(case, build, plan, inner_pol, culprits, bool(_stateful_tags(pc)), st_tags)
 
 
-_sub = st.fixed_dictionaries({"mode": st.sampled_from(["ov", "ov", "seq"]), "d": st.integers(0, 6)})
+_sub = st.fixed_dictionaries({"mode": st.sampled_from(["ov", "ov", "seq", "incb"]), "d": st.integers(0, 6)})
 # per subscription: None = runs to its end (horizon), n = disposed n ticks after it was made
 _cuts = st.lists(st.one_of(st.none(), st.none(), st.none(), st.integers(0, 8)), min_size=3, max_size=3)
 
@@ -310,7 +323,33 @@ _SRC_KINDS = ("cold", "cold", "sync")
 
 def _generic_cases(max_ops):
     pipe = pipelines(max_ops=max_ops, min_ops=1, src_kinds=_SRC_KINDS, conforming=True, exclude_tags=EXCL_TAGS, exclude_ops=EXCL_OPS).map(coldify)
-    return st.fixed_dictionaries({"pipe": pipe, "subs": st.lists(_sub, min_size=1, max_size=2), "cuts": _cuts, "inner": st.sampled_from(["now", "now", "late"])})
+    base = st.fixed_dictionaries({"pipe": pipe, "subs": st.lists(_sub, min_size=1, max_size=2), "cuts": _cuts, "inner": st.sampled_from(["now", "now", "late"])})
+    return st.tuples(base, st.sampled_from([0, 0, 1, 2, 2, 2, 2, 2])).map(lambda t: _maybe_flat(t[0], t[1]))
+
+
+def flatten(x):
+    """Make every source spec fully synchronous: kind "sync", all ticks 0 (the whole timeline is emitted inside
+    subscribe).  Only then can a terminal callback - and a re-subscription made inside it - be nested in a subscribe."""
+    if isinstance(x, dict):
+        if set(x.keys()) == {"kind", "tl"}:
+            return {"kind": "sync", "tl": [[0, k, p] for _, k, p in x["tl"]]}
+        return {k: flatten(v) for k, v in x.items()}
+    if isinstance(x, list):
+        return [flatten(v) for v in x]
+    return x
+
+
+def _maybe_flat(case, sel):
+    """sel == 0 (1 case in 4): the *nested* scenario - every source fully synchronous and the second subscription made
+    from inside the first subscriber's terminal callback, i.e. inside the first subscribe() call; sel == 1 (1 in 8
+    overall via the caller's range): synchronous sources with the drawn plan; otherwise unchanged."""
+    if sel == 0:
+        subs = [{"mode": "incb", "d": 0}] + case["subs"][1:]
+        cuts = [None] + list(case["cuts"][1:])
+        return dict(case, pipe=flatten(case["pipe"]), subs=subs, cuts=cuts, flat=True)
+    if sel == 1:
+        return dict(case, pipe=flatten(case["pipe"]), flat=True)
+    return case
 
 
 GEN_OPS = sorted(n for n, o in OPS.items() if not (o.tags & set(EXCL_TAGS)) and n not in EXCL_OPS)
@@ -338,7 +377,30 @@ def _focus_cases(name, extra):
         chain.append([name, draw(o.args)])
         chain += draw(suf)["ops"]
         case = {"pipe": {"root": pc["root"], "ops": chain}, "subs": draw(st.lists(_sub, min_size=1, max_size=2)), "cuts": draw(_cuts), "inner": draw(st.sampled_from(["now", "now", "late"]))}
-        return coldify(case)
+        return _maybe_flat(coldify(case), draw(st.sampled_from([0, 0, 1, 2, 2, 2, 2, 2])))
+
+    return _c()
+
+
+def _slice_cases():
+    """Boundary family for slice: negative start with positive stop and a non-empty result (the branch that keeps an
+    element index), which the table's argument ranges reach in only ~1 of 50 cases."""
+
+    @st.composite
+    def _c(draw):
+        n = draw(st.integers(2, 6))
+        tl = []
+        t = 0
+        for i in range(n):
+            t += draw(st.integers(0, 2))
+            tl.append([t, "N", f"n:{i}"])
+        tl.append([t + draw(st.integers(0, 2)), "C", None])
+        a = -draw(st.integers(1, n))
+        b = draw(st.integers(n + a + 1, n + 2))  # stop beyond the first selected index: non-empty result
+        c = draw(st.one_of(st.none(), st.integers(1, 2)))
+        tail = draw(st.one_of(st.just([]), st.just([["repeat", {"n": 2}]]), st.just([["to_list", {}]])))
+        case = {"pipe": {"root": {"f": "single", "srcs": [{"kind": draw(st.sampled_from(["cold", "sync"])), "tl": tl}]}, "ops": [["slice", {"a": a, "b": b, "c": c}]] + tail}, "subs": draw(st.lists(_sub, min_size=1, max_size=2)), "cuts": draw(_cuts), "inner": "now"}
+        return case
 
     return _c()
 
@@ -398,6 +460,7 @@ FORMS = {
     "from_iterable": D(vs=_vals),
     "timer": D(d=st.integers(0, 4), p=st.one_of(st.none(), st.integers(1, 3)), take=st.integers(0, 4)),
     "interval": D(p=st.integers(1, 3), take=st.integers(0, 4)),
+    "from_future": D(v=s_val, err=st.booleans()),
     "retry_budget": D(src=s_src(_cold, terminal=("E", "E", "C")), n=st.integers(0, 3), outer=st.integers(1, 2)),
 }
 
@@ -486,6 +549,15 @@ def _build_form(lab, B, sc, form, a):
         return reactivex.timer(lab.rel(a["d"]), lab.rel(a["p"]), scheduler=lab.sched).pipe(ops.take(a["take"]))
     if form == "interval":
         return reactivex.interval(lab.rel(a["p"]), scheduler=lab.sched).pipe(ops.take(a["take"]))
+    if form == "from_future":
+        from concurrent.futures import Future
+
+        fut = Future()  # already resolved: replays its outcome to every subscriber (cold by construction)
+        if a["err"]:
+            fut.set_exception(Tagged("fut"))
+        else:
+            fut.set_result(val(a["v"]))
+        return reactivex.from_future(fut)
     if form == "retry_budget":
         # retry(n) under repeat(m): the retry allowance must be fresh for every (re)subscription
         return S(a["src"]).pipe(ops.retry(a["n"]), ops.repeat(a["outer"]))
@@ -607,6 +679,7 @@ def checks(tier):
         Check("generic", _run_generic, strategy=_generic_cases(4 if q else 6), examples={"quick": 2400, "thorough": 16 * 8000}, shards=sh),
         Check("scripted", _run_scripted, strategy=_scripted_cases(2 if q else 3), examples={"quick": 800, "thorough": 16 * 3000}, shards=sh),
     ]
+    out.append(Check("slice-negstart", _run_generic, strategy=_slice_cases(), examples={"quick": 160, "thorough": 16 * 500}, shards=sh))
     out.append(Check("abstime", _run_abstime, strategy=_abstime_cases(), examples={"quick": 1200, "thorough": 16 * 5000}, shards=sh))
     # equal budget for every operator form / creation form
     for name in GEN_OPS:
